@@ -99,7 +99,7 @@ func c10(r *core.Report) {
 	crashAssert(r, cs, nil)
 	crashIndex(r, cs, 10)
 	crashLib(r, cs, 3)
-	crashRec(r, cs, nil)
+	crashRec(r, cs, nil, nil)
 	crashNil(r, cs)
 }
 
@@ -739,7 +739,7 @@ func lockstepCounter(info *types.Info, ff *core.FuncFacts, fd *ast.FuncDecl, bas
 
 func crashLib(r *core.Report, cs *crashScope, floor int) {
 	p := r.Prog
-	r.RunRule(cs.id+".lib", "calls of standard-library functions that panic on bad arguments: regexp.MustCompile only on constants or on text passed through regexp.QuoteMeta; big.NewFloat (panics on NaN) only on values that cannot be NaN — a quotient needs a divisor guarded against zero, a traffic-derived float needs a dominating NaN test; reflect.Value accessors only under the matching Kind test", floor, func() {
+	r.RunRule(cs.id+".lib", "calls of standard-library functions that panic on bad arguments: regexp.MustCompile only on constants or on text passed through regexp.QuoteMeta; big.NewFloat (panics on NaN) only on values that cannot be NaN — a quotient needs a divisor guarded against zero, a traffic-derived float needs a dominating NaN test; reflect.Value.Index only with an index bounded below by 0 and above by the same value's Len() on every path", floor, func() {
 		perFn := map[string]int{}
 		for _, fn := range cs.funcs {
 			for _, b := range fn.Blocks {
@@ -764,6 +764,14 @@ func crashLib(r *core.Report, cs *crashScope, floor int) {
 						} else {
 							r.Bad(key, p.Pos(in.Pos()), "regexp.MustCompile on a pattern that is neither constant nor built from constants and regexp.QuoteMeta(...): panics on traffic- or document-derived text that is not a valid expression")
 						}
+					case "(reflect.Value).Index":
+						perFn[fname+name]++
+						key := fmt.Sprintf("lib:%s/reflect.Index#%d", fname, perFn[fname+name])
+						if why, ok := reflectIndexGuarded(p, fn, site); ok {
+							r.OK(key, p.Pos(in.Pos()), why)
+						} else {
+							r.Bad(key, p.Pos(in.Pos()), "reflect.Value.Index panics when the index is out of range: "+why)
+						}
 					case "math/big.NewFloat":
 						perFn[fname+name]++
 						key := fmt.Sprintf("lib:%s/NewFloat#%d", fname, perFn[fname+name])
@@ -778,6 +786,103 @@ func crashLib(r *core.Report, cs *crashScope, floor int) {
 			}
 		}
 	})
+}
+
+// reflectIndexGuarded: the (non-constant) index of v.Index(i) satisfies 0 <= i < v.Len() by the
+// path conditions at the call (or i is unsigned / a loop counter from 0 below v.Len()).
+func reflectIndexGuarded(p *core.Prog, fn *ssa.Function, site ssa.CallInstruction) (string, bool) {
+	syn, fd, info := declOfSSA(p, fn)
+	if syn == nil || fd == nil {
+		return "no syntax for the enclosing function", false
+	}
+	var call *ast.CallExpr
+	ast.Inspect(syn, func(n ast.Node) bool {
+		if c, ok := n.(*ast.CallExpr); ok && c.Lparen == site.Pos() {
+			call = c
+		}
+		return call == nil
+	})
+	if call == nil || len(call.Args) != 1 {
+		return "call expression not found", false
+	}
+	sel, ok := call.Fun.(*ast.SelectorExpr)
+	if !ok {
+		return "unexpected call shape", false
+	}
+	recv := core.ExprStr(sel.X)
+	idx := ast.Unparen(call.Args[0])
+	if _, ok := intConst(info, idx); ok {
+		return "constant index", false
+	}
+	is := core.ExprStr(idx)
+	lower, upper := false, false
+	if b, ok := info.TypeOf(idx).Underlying().(*types.Basic); ok && b.Info()&types.IsUnsigned != 0 {
+		lower = true
+	}
+	// a counter that starts at a non-negative constant and is only ever incremented
+	if id, ok := idx.(*ast.Ident); ok && !lower {
+		ff := core.NewFuncFacts(p, info, fd)
+		as := ff.Assigns(info.ObjectOf(id))
+		good := len(as) > 0
+		for _, a := range as {
+			if st, ok := a.Stmt.(*ast.IncDecStmt); ok && st.Tok == token.INC {
+				continue
+			}
+			if a.Rhs != nil {
+				if v, ok := intConst(info, a.Rhs); ok && v >= 0 {
+					continue
+				}
+			}
+			good = false
+		}
+		if good {
+			lower = true
+		}
+	}
+	isZero := func(e ast.Expr) bool { v, ok := intConst(info, e); return ok && v == 0 }
+	isLen := func(e ast.Expr) bool {
+		c, ok := ast.Unparen(e).(*ast.CallExpr)
+		if !ok || len(c.Args) != 0 {
+			return false
+		}
+		s2, ok := c.Fun.(*ast.SelectorExpr)
+		return ok && s2.Sel.Name == "Len" && core.ExprStr(s2.X) == recv
+	}
+	for _, a := range core.Atoms(core.GuardsAt(info, fd.Body, call)) {
+		be, ok := ast.Unparen(a.Expr).(*ast.BinaryExpr)
+		if !ok {
+			continue
+		}
+		op := be.Op
+		if !a.Pos {
+			op = negOp(op)
+		}
+		x, y := ast.Unparen(be.X), ast.Unparen(be.Y)
+		// normalise to idx on the left
+		if core.ExprStr(y) == is {
+			x, y = y, x
+			op = flipOp(op)
+		}
+		if core.ExprStr(x) != is {
+			continue
+		}
+		if isZero(y) && op == token.GEQ {
+			lower = true
+		}
+		if isLen(y) && op == token.LSS {
+			upper = true
+		}
+	}
+	if lower && upper {
+		return "index bounded by 0 and " + recv + ".Len() on this path", true
+	}
+	if !lower && !upper {
+		return "neither bound of the index is established on this path", false
+	}
+	if !lower {
+		return "no lower bound: a negative index (after int conversion of a parsed number) reaches Index", false
+	}
+	return "no upper bound against " + recv + ".Len()", false
 }
 
 func patternSafe(v ssa.Value, depth int) string {
